@@ -212,3 +212,47 @@ def input_class(doc):
     the finding's entry matches this class only and any other violation keeps its own signature)"""
     names = [str(b.identifier) for b in doc.bundles]
     return "[bundles-printing-alike]" if len(set(names)) < len(names) else ""
+
+
+_DECOY = []
+_DECOY_CALLS = {}
+
+
+def export_decoy(fmt, **opts):
+    """call history made explicit: before a judged export (or load), another document - holding values that
+    compare equal to commonly used ones but are of another kind, the same names under other URIs - goes through
+    the same writer and reader, so that anything a call leaves behind in the process (memo tables, interned
+    values, counters) meets the judged call in a fixed state, in a full run and in a replay alike."""
+    import datetime
+    from prov.identifier import Namespace
+    from prov.model import Literal, ProvDocument
+    if not _DECOY:
+        d = ProvDocument()
+        EX = Namespace("ex", "http://decoy.example/")
+        d.add_namespace(EX)
+        utc = datetime.timezone.utc
+        d.entity(EX["x"], [(EX["k"], True), (EX["k2"], 0), (EX["k3"], 2.0), (EX["k4"], "1"), (EX["v"], EX["v"]),
+                           (EX["k5"], datetime.datetime(2014, 6, 7, 2, 39, 10, tzinfo=utc)),
+                           (EX["k6"], Literal("v", EX["dt"])), (EX["k7"], Literal("bonjour", langtag="en")),
+                           (EX["k8"], -0.0), (EX["k9"], False), (EX["k10"], 1.0)])
+        d.activity(EX["a"], datetime.datetime(2012, 3, 4, 5, 6, 7, tzinfo=utc))
+        d.generation(EX["x"], EX["a"])
+        b = d.bundle(EX["b1"])
+        b.entity(EX["x"], {EX["k"]: 1})
+        _DECOY.append(d)
+    d = _DECOY[0]
+    # the first judged call of a process (hence every replay) and every 64th after it: what a call leaves
+    # behind persists, so later judged calls of a long run meet it anyway
+    key = (fmt, repr(sorted(opts.items())))
+    n = _DECOY_CALLS.get(key, 0)
+    _DECOY_CALLS[key] = n + 1
+    if n % 64:
+        return
+    try:
+        if fmt == "provn":
+            d.get_provn()
+        else:
+            from prov.model import ProvDocument as PD
+            PD.deserialize(content=d.serialize(format=fmt, **opts), format=fmt)
+    except Exception:
+        pass
